@@ -657,6 +657,15 @@ func (g *G) docMeta(label string) [][]string {
 	}
 	if rapid.Bool().Draw(t, label+"ext") {
 		out = append(out, []string{"openapi:extension:x-" + label, `{"a":1}`})
+		// a design half-way through the swagger: -> openapi: renaming: the same
+		// extensions under both prefixes with different values (openapi: wins)
+		if rapid.Bool().Draw(t, label+"legacyext") {
+			out = append(out, []string{"swagger:extension:x-" + label, `{"a":2}`})
+			for _, n := range []string{"one", "two", "three"} {
+				out = append(out, []string{"openapi:extension:x-" + label + "-" + n, `"new"`}, []string{"swagger:extension:x-" + label + "-" + n, `"old"`})
+			}
+			g.feat("doc-meta-extension-under-both-prefixes")
+		}
 	}
 	g.feat("doc-meta")
 	if n >= 2 {
